@@ -1013,6 +1013,8 @@ class Pass3(CompilePass):
 
     def process_select_block_pre(self, node):
         vtype = node.value.type
+        if not vtype.is_numeric and vtype != Type.STRING:
+            raise CompileError(EC.TYPE_MISMATCH, node=node.value)
         for case, body in node.case_blocks:
             if isinstance(case, CaseElseStmt):
                 continue
